@@ -1297,18 +1297,18 @@ pub fn run(args: &Args) -> i32 {
     }
     let t = check.tier;
     let known: Vec<String> = [KEY_FOLLOWING_EPOCH, KEY_CACHE_POISON].iter().filter(|k| !args.strict && check.has_open_known(k)).map(|k| k.to_string()).collect();
-    let pool: Vec<ChainSpec> = if check.is_replay() { vec![vcore::sample_one(&chain_strategy(2), 1)] } else { chain_pool(check.seed, t.pick(150, 5000) as usize, 6, check.threads) };
+    let pool: Vec<ChainSpec> = if check.is_replay() { vec![vcore::sample_one(&chain_strategy(2), 1)] } else { chain_pool(check.seed, t.pick(400, 5000) as usize, 6, check.threads) };
     if pool.is_empty() {
         check.inconclusive("no honest chain could be built".into());
         return check.finish();
     }
     {
         let pool = pool.clone();
-        check.section("tampered-provider", move || case_strategy(pool.clone()), t.pick(1800, 60_000), |c: &Case| case_fn(c, &known));
+        check.section("tampered-provider", move || case_strategy(pool.clone()), t.pick(8000, 80_000), |c: &Case| case_fn(c, &known));
     }
     {
         let pool = pool.clone();
-        check.section("client-cache-history", move || hist_strategy(pool.clone()), t.pick(600, 20_000), |c: &HistCase| hist_case(c, &known));
+        check.section("client-cache-history", move || hist_strategy(pool.clone()), t.pick(3000, 30_000), |c: &HistCase| hist_case(c, &known));
     }
     if check.label_count("honest-rejected") > 0 {
         check.inconclusive("an untampered honest chain was rejected: the harness' chain builder is wrong".into());
